@@ -173,6 +173,12 @@ def perform(spec, w, ctx):
             mode = spec.get('clear_mode', 'default')
             keep = bool(spec.get('keep', False))
             r = w.clear() if mode == 'default' else (w.clear(keep) if mode == 'positional' else w.clear(keepstats=keep))
+        elif op == 'load':
+            r = w.load(*[ctx['key_of'](e) for e in spec.get('keys', [])])
+        elif op == 'dump':
+            r = w.dump(*[ctx['key_of'](e) for e in spec.get('keys', [])])
+        elif op == 'archived':
+            r = w.archived(bool(spec['flag']))
         else:
             return ('unsupported', op)
         return ('return', r)
@@ -318,6 +324,71 @@ def eval_clause(clause, spec, pre, post, outcome, value, ctx):
         return getattr(value, f, object()) == want[f]
     if name == 'frame.archive_binding':
         return pre.A_id == post.A_id and pre.S_id == post.S_id
+    if name == 'survivors_keep_their_values':
+        return all(post.mem[k] == v for k, v in pre.mem.items() if k in post.mem)
+    if name.split('.')[0] in ('lru', 'mru', 'lfu', 'rr'):
+        return eval_policy(name, pol, spec, pre, post, normal, usable, inmem, on, key, M)
+    return None
+
+
+def _last_index(q):
+    out = {}
+    for i, k in enumerate(q):
+        out[k] = i
+    return out
+
+
+def eval_policy(name, pol, spec, pre, post, normal, usable, inmem, on, key, M):
+    """concrete evaluation of the C06 policy clauses (same statements as contracts/wrappers.py)"""
+    if not normal:
+        return True
+    evict = usable and (not inmem) and len(pre.mem) + 1 > M and not (on and spec.get('purge'))
+    removed = [k for k in list(pre.mem) + ([key] if usable else []) if k not in post.mem]
+    removed = list(dict.fromkeys(removed))
+    what = name.split('.', 1)[1]
+    if pol == 'lfu':
+        U0, U1 = pre.counter, post.counter
+        u0 = lambda t: U0.get(t, 0)
+        ucur = lambda t: u0(t) + (1 if (usable and t == key) else 0)
+        coh = all(k in U0 for k in pre.mem)
+        if what == 'use_recorded':
+            return (not (usable and key in post.mem)) or (U1.get(key) == u0(key) + 1)
+        if what == 'other_counts_unchanged':
+            return all(k in U0 and U1[k] == U0[k] for k in U1 if not (usable and k == key))
+        if what == 'victims_least_frequent':
+            return (not (evict and coh)) or all(ucur(x) <= ucur(y) for x in removed for y in post.mem)
+        if what == 'bookkeeping_covers_residents':
+            return (not coh) or all(k in U1 for k in post.mem)
+    if pol in ('lru', 'mru'):
+        q0, q1 = pre.queue, post.queue
+        l0, l1 = _last_index(q0), _last_index(q1)
+        coh = all(k in l0 for k in pre.mem)
+        if what == 'use_recorded':
+            return (not (usable and key in post.mem)) or (len(q1) > 0 and q1[-1] == key)
+        if what == 'recency_order_preserved':
+            ks = [k for k in post.mem if k in l0 and k in l1 and not (usable and k == key)]
+            return all((l0[a] < l0[b]) == (l1[a] < l1[b]) for a in ks for b in ks if a != b)
+        if what == 'bookkeeping_covers_residents':
+            return (not coh) or all(k in l1 for k in post.mem)
+        if what == 'victim':
+            if not (evict and coh):
+                return True
+            if key not in post.mem or len(post.mem) != len(pre.mem):
+                return False
+            for x in removed:
+                for y in pre.mem:
+                    if y != x:
+                        if y not in post.mem:
+                            return False
+                        if x not in l0:
+                            return False
+                        older = l0[x] < l0[y] if pol == 'lru' else l0[x] > l0[y]
+                        if not older:
+                            return False
+            return True
+    if pol == 'rr':
+        if what == 'exactly_one_victim':
+            return (not evict) or (len(post.mem) == len(pre.mem) and len(removed) == 1)
     return None
 
 
@@ -359,6 +430,34 @@ def eval_inv(name, spec, sg, ctx):
     if name == 'stats>=0':
         return all(x >= 0 for x in sg.stats)
     return None
+
+
+def spec_of(spec0, w, ctx):
+    """abstract state of a live wrapper as a spec (inverse of build); None if it holds keys outside the universe"""
+    roles = ctx['roles']
+    sg = Sigma(w, roles)
+
+    def elem(k):
+        if roles['sentinel'] is not None and k is roles['sentinel']:
+            return 'se'
+        if isinstance(k, tuple) and len(k) == 2 and k[0] == 'x' and isinstance(k[1], int):
+            return k[1] - BASE
+        raise KeyError(k)
+    try:
+        out = dict(spec0)
+        out['mem'] = {str(elem(k)): 'R' for k in sg.mem}
+        out['A'] = None if sg.A_null else {str(elem(k)): 'R' for k in sg.A}
+        out['S'] = None if sg.S_null else {str(elem(k)): 'R' for k in sg.S}
+        out['stats'] = list(sg.stats) if sg.stats is not None else [0, 0, 0]
+        if sg.queue is not None:
+            out['queue'] = [elem(k) for k in sg.queue]
+            if 'se' in out['queue']:
+                return None
+        if sg.counter is not None:
+            out['counter'] = {str(elem(k)): n for k, n in sg.counter.items()}
+        return out
+    except KeyError:
+        return None
 
 
 def run(spec):
